@@ -10,13 +10,19 @@ import collections
 
 from . import common
 
-KNOWN = os.path.join(common.VERIF, 'known_findings.json')
+KNOWN_DIR = os.path.join(common.VERIF, 'known_findings')
 
 
-def load_known():
-    if not os.path.exists(KNOWN):
+def load_known(prop):
+    """known_findings/<ID>.json: {"open": [{property, signature, what, repro}], "fixed": ["fixed: property=.."]}.
+
+    Committed, never written at run time. An open entry suppresses exactly the violations that carry its
+    signature; a fixed entry suppresses nothing.
+    """
+    path = os.path.join(KNOWN_DIR, prop + '.json')
+    if not os.path.exists(path):
         return {'open': [], 'fixed': []}
-    with open(KNOWN) as f:
+    with open(path) as f:
         return json.load(f)
 
 
@@ -26,13 +32,14 @@ class Report:
         self.tier = tier
         self.level = level
         self.timer = common.Timer()
-        self.known = [k for k in load_known().get('open', []) if k['property'] == prop]
+        self.known = [k for k in load_known(prop).get('open', []) if k['property'] == prop]
         self.known_sigs = {k['signature']: k for k in self.known}
         self.seen_known = collections.Counter()
         self.violations = collections.OrderedDict()   # signature -> (what, witness, count)
         self.cov = dict(states=0, transitions=0, traces_validated_against_impl=0, samples=[])
         self.assumptions = []
-        self.replay_dir = os.path.join(common.EVIDENCE, 'replay', prop)
+        self.evidence_dir = os.environ.get('VERIF_EVIDENCE_DIR', common.EVIDENCE)
+        self.replay_dir = os.path.join(self.evidence_dir, 'replay', prop)
         common.rmtree(self.replay_dir)
 
     # ---- coverage accounting -------------------------------------------------
@@ -92,7 +99,7 @@ class Report:
         ev = dict(property_id=self.prop, tier=self.tier, seed=common.seed(), level=self.level,
                   coverage=self.cov, assumptions=self.assumptions, wall_s=self.timer.s(),
                   violations=len(self.violations))
-        common.dump(ev, os.path.join(common.EVIDENCE, self.prop + '.json'))
+        common.dump(ev, os.path.join(self.evidence_dir, self.prop + '.json'))
         print('%s %s: states=%s transitions=%s validated=%s violations=%d known=%d wall=%ss' % (
             self.prop, self.tier, self.cov.get('states'), self.cov.get('transitions'),
             self.cov.get('traces_validated_against_impl'), len(self.violations), len(self.seen_known),
